@@ -63,7 +63,7 @@ import sys
 from pathlib import Path
 
 if __name__ != "__main__":
-    from common import REPO, coq_str, coq_list, coq_opt, coq_Z, coq_eval_shards
+    from common import REPO, coq_str, coq_list, coq_opt, coq_Z, coq_bool, coq_eval_shards
 
 PKG = "sharepoint2text/parsing"
 OBSERVERS = ("get_full_text", "iterate_units", "iterate_images", "iterate_tables", "get_metadata", "to_json")
@@ -332,6 +332,10 @@ class SetUses:
                 if f.id in ("len", "bool"):
                     return "ULen"
                 if f.id == "sorted":
+                    if any(k.arg == "key" for k in p.keywords):
+                        # a key need not be injective: elements with equal keys keep the set's iteration order
+                        self.note(p, "sorted(set, key=...)")
+                        return "UOrdered"
                     return "USorted"
                 if f.id in ("any", "all", "min", "max"):
                     return "UAnyAll"
@@ -1206,6 +1210,10 @@ def gen_sites(ctx, pkg):
         1 for x in sf if x["cls"] == "primitive")
     t += "Definition stringify_sites : list (str * str * str * sclass) := [\n" + ";\n".join(
         f"  ({coq_str(x['file'])}, {coq_str(x['func'])}, {coq_str(x['src'])}, {kname[x['cls']]})" for x in sf if x["cls"] != "primitive") + "\n].\n"
+    reorder = inventory_archive_reorder(pkg)
+    t += "\n(* calls in archive_extractor.py that could re-order members or results *)\n"
+    t += "Definition archive_reorder_sites : list (str * Z * str) := [\n" + ";\n".join(
+        f"  ({coq_str(x['func'])}, {z(x['line'])}, {coq_str(x['what'])})" for x in reorder) + "\n].\n"
     pats = inventory_strip_patterns(pkg)
     t += "\n(* (pattern, replacement) of every re.sub / re.compile whose pattern names IndirectObject *)\n"
     t += "Definition strip_patterns : list (str * str) := [\n" + ";\n".join(
@@ -1343,12 +1351,58 @@ def recorrupt_zip(data, is_image):
     return make_zip(members, corrupt={victim})
 
 
+CORE_REL = "http://schemas.openxmlformats.org/package/2006/relationships/metadata/core-properties"
+
+
+def repackage_ooxml(data, mode):
+    """OPC-equivalent variants of an OOXML package: the core-properties part ...
+       moved     lives where System.IO.Packaging puts it (/package/services/metadata/core-properties/<id>.psmdcp), found
+                 through _rels/.rels only; docProps/core.xml is gone
+       dropped   is absent (relationship removed)
+       dateless  is kept but carries no dcterms:created / dcterms:modified
+    None if the package has no docProps/core.xml."""
+    import re as _re
+    import zipfile
+    try:
+        with zipfile.ZipFile(io.BytesIO(data)) as z:
+            members = [(i.filename, z.read(i.filename)) for i in z.infolist() if not i.is_dir()]
+    except Exception:  # noqa
+        return None
+    d = dict(members)
+    if "docProps/core.xml" not in d or "_rels/.rels" not in d:
+        return None
+    new_name = "package/services/metadata/core-properties/0a1b2c3d4e5f.psmdcp"
+    rels = d["_rels/.rels"].decode("utf-8", "replace")
+    ct = d.get("[Content_Types].xml", b"").decode("utf-8", "replace")
+    out = []
+    for name, raw in members:
+        if name == "docProps/core.xml":
+            if mode == "moved":
+                out.append((new_name, raw))
+            elif mode == "dateless":
+                out.append((name, _re.sub(rb"<dcterms:(created|modified)\b.*?</dcterms:\1>", b"", raw, flags=_re.S)))
+            continue
+        if name == "_rels/.rels":
+            if mode == "moved":
+                raw = _re.sub(r'Target="/?docProps/core\.xml"', f'Target="/{new_name}"', rels).encode()
+            elif mode == "dropped":
+                raw = _re.sub(r'<Relationship\b[^>]*core-properties[^>]*/>', "", rels).encode()
+        if name == "[Content_Types].xml":
+            if mode == "moved":
+                raw = ct.replace('PartName="/docProps/core.xml"', f'PartName="/{new_name}"').replace(
+                    "</Types>", '<Default Extension="psmdcp" ContentType="application/vnd.openxmlformats-package.core-properties+xml"/></Types>').encode()
+            elif mode == "dropped":
+                raw = _re.sub(r'<Override\b[^>]*docProps/core\.xml[^>]*/>', "", ct).encode()
+        out.append((name, raw))
+    return make_zip(out)
+
+
 def xml_esc(t):
     return t.replace("&", "&amp;").replace("<", "&lt;").replace(">", "&gt;").replace('"', "&quot;")
 
 
 def gen_epub(rng, names):
-    subj = rng.sample(names, rng.randint(3, 6))
+    subj = rng.sample(names, rng.randint(3, 6)) + rng.sample(NEAR_DUPLICATE_NAMES, 4)
     contrib = rng.sample(names, rng.randint(3, 6))
     creators = rng.sample(names, rng.randint(2, 4))
     dc = "".join(f"<dc:subject>{xml_esc(x)}</dc:subject>" for x in subj)
@@ -1423,9 +1477,11 @@ def gen_docx(rng, names):
     styles = rng.sample(["Heading1", "Heading2", "Title", "Quote", "ListParagraph", "Caption", "BodyText", "Subtitle",
                          "IntenseQuote", "NoSpacing"], rng.randint(5, 9))
     urls = [f"https://example.org/{x.replace(' ', '_')}" for x in rng.sample(names, 4)]
+    styles += [x.replace(" ", "") for x in rng.sample(NEAR_DUPLICATE_NAMES, 5)]
+    styles = list(dict.fromkeys(styles))
     body = []
     for i, st in enumerate(styles * 2):
-        body.append(f'<w:p><w:pPr><w:pStyle w:val="{st}"/></w:pPr><w:r><w:t>{xml_esc(rng.choice(names))} {i}</w:t></w:r></w:p>')
+        body.append(f'<w:p><w:pPr><w:pStyle w:val="{xml_esc(st)}"/></w:pPr><w:r><w:t>{xml_esc(rng.choice(names))} {i}</w:t></w:r></w:p>')
     for i, u in enumerate(urls + urls[:2]):      # repeated relationship targets
         body.append(f'<w:p><w:hyperlink r:id="rIdH{i % len(urls)}"><w:r><w:t>link {i}</w:t></w:r></w:hyperlink></w:p>')
     for k, rid in enumerate(("rIdI1", "rIdI2", "rIdI3", "rIdI4")):
@@ -1465,6 +1521,11 @@ def gen_docx(rng, names):
                     corrupt={"word/media/image2.png"})
 
 
+# pairs / triples of DISTINCT names that a "nicer" comparison (case folding, numbers by value, Unicode normalisation,
+# stripped blanks) identifies: a sort key that is not injective leaves their relative order to set / dict iteration
+NEAR_DUPLICATE_NAMES = ["P1", "P01", "p1", "P001", "Heading", "heading", "HEADING", "T7", "t7", "T07", "Stra\u00dfe", "STRASSE",
+                        "strasse", "Caf\u00e9", "Cafe\u0301", "List 2", "List  2", "list 2", "\uff21bc", "Abc", "abc", "A10", "a10", "A010"]
+
 # picture kinds found in ODF packages; their content type is looked up by file name (host MIME registry)
 ODF_PICTURE_EXT = ("emf", "wmf", "svm", "svg", "jpg", "jpeg", "gif", "tif", "tiff", "bmp", "pct", "eps", "webp", "ico")
 
@@ -1475,10 +1536,12 @@ def gen_odt(rng, names):
           'xmlns:xlink="http://www.w3.org/1999/xlink" xmlns:svg="urn:oasis:names:tc:opendocument:xmlns:svg-compatible:1.0" '
           'xmlns:meta="urn:oasis:names:tc:opendocument:xmlns:meta:1.0" xmlns:dc="http://purl.org/dc/elements/1.1/"')
     st = [f"P{i}" for i in range(1, rng.randint(5, 9))] + rng.sample(["Heading_20_1", "Text_20_body", "Caption", "Standard"], 3)
-    auto = "".join(f'<style:style style:name="{x}" style:family="paragraph"/>' for x in st)
+    st += rng.sample(NEAR_DUPLICATE_NAMES, 6)     # distinct names that collide under case folding / numeric reading / NFKC
+    st = list(dict.fromkeys(st))
+    auto = "".join(f'<style:style style:name="{xml_esc(x)}" style:family="paragraph"/>' for x in st)
     paras = ['<text:h text:outline-level="1" text:style-name="Heading_20_1">Chapter</text:h>']
     for i, x in enumerate(st):
-        paras.append(f'<text:p text:style-name="{x}">{xml_esc(rng.choice(names))} {i}</text:p>')
+        paras.append(f'<text:p text:style-name="{xml_esc(x)}">{xml_esc(rng.choice(names))} {i}</text:p>')
     pics = ["a.png", "b.png", "logo.png", "Logo.png"] + [f"p{i}.{e}" for i, e in enumerate(ODF_PICTURE_EXT)]
     for k, img in enumerate(pics):
         paras.append(f'<text:p><draw:frame draw:name="img{k}" svg:width="1cm" svg:height="1cm"><draw:image '
@@ -1716,6 +1779,18 @@ def gen_documents(ctx, resources, outdir):
                 if c is not None:
                     out[f"corrupt/{q.stem}{ext}"] = c
                     done += 1
+        if ext in (".docx", ".docm", ".xlsx", ".xlsm", ".pptx", ".pptm"):
+            done = 0
+            for q in ps:
+                if q.stat().st_size > 1_000_000 or done >= ctx.n(2, 4):
+                    continue
+                made = False
+                for mode in ("moved", "dropped", "dateless"):
+                    r = repackage_ooxml(q.read_bytes(), mode)
+                    if r is not None:
+                        out[f"repack/{mode}__{q.stem}{ext}"] = r
+                        made = True
+                done += made
         for q in ps[: ctx.n(1, 3)]:
             data = q.read_bytes()
             if len(data) > 1_500_000:
@@ -1734,6 +1809,23 @@ def gen_documents(ctx, resources, outdir):
         f.write_bytes(data)
     ctx.count("generated-inputs", len(out))
     return sorted(out)
+
+
+def large_payload_objects(sizes):
+    """content objects whose image payload (io.BytesIO) has one of the boundary sizes"""
+    from sharepoint2text.parsing.extractors import data_types as dt
+    out = []
+    for n in sizes:
+        blob = lambda: io.BytesIO(PNG_1x1 + b"\x00" * max(0, n - len(PNG_1x1)))
+        try:
+            out.append((f"DocxContent[{n}]", dt.DocxContent(images=[dt.DocxImage(data=blob(), size_bytes=n), dt.DocxImage(data=blob())], full_text="t")))
+            out.append((f"OdtContent[{n}]", dt.OdtContent(images=[dt.OpenDocumentImage(data=blob(), href="Pictures/a.png"),
+                                                                   dt.OpenDocumentImage(data=blob(), href="Pictures/b.png")],
+                                                           full_text="t", paragraphs=[dt.OdtParagraph(text="t")])))
+            out.append((f"XlsxContent[{n}]", dt.XlsxContent(sheets=[dt.XlsxSheet(name="s", images=[dt.XlsxImage(data=blob()), dt.XlsxImage(data=blob())])])))
+        except Exception as e:  # noqa
+            out.append((f"unbuildable[{n}]:{type(e).__name__}", None))
+    return out
 
 
 def placeholder_objects():
@@ -2020,7 +2112,18 @@ def call_observer(obj, name, probe=None):
         if culprit:
             return None, culprit, None
         before = probe()
-        return canon([getattr(t_, m)() for t_ in ts]), blame, before
+        vals = [getattr(t_, m)() for t_ in ts]
+        v = canon(vals)
+        # a consumer USES what it gets: read the returned streams (fully / partly / seek to the end)
+        for k, x in enumerate(vals):
+            if isinstance(x, io.BytesIO) and not x.closed:
+                if k % 3 == 0:
+                    x.read()
+                elif k % 3 == 1:
+                    x.read(max(1, len(x.getvalue()) // 2))
+                else:
+                    x.seek(0, 2)
+        return v, blame, before
     before = probe()
     r = getattr(obj, name)()
     if name.startswith("iterate_"):
@@ -2237,6 +2340,142 @@ def strip_correspondence(ctx, gen_root):
     ctx.extra["strip_corr_cases"] = len(cases)
 
 
+def inventory_archive_reorder(pkg: Pkg):
+    """anything in archive_extractor.py that could re-order members or results: sorted / reversed / set / shuffle /
+    .sort / .reverse / dict or set comprehensions -- the Coq model (Part G) has the results in member order"""
+    out = []
+    for rel, tree in pkg.mods.items():
+        if not rel.endswith("archive_extractor.py"):
+            continue
+        for n in ast.walk(tree):
+            fn = pkg.enclosing(n, (ast.FunctionDef, ast.AsyncFunctionDef))
+            if fn is None or not (fn.name.startswith(("_extract_from", "_process", "read_archive", "_iter", "_read"))):
+                continue
+            if isinstance(n, ast.Call):
+                f = n.func
+                nm = f.id if isinstance(f, ast.Name) else f.attr if isinstance(f, ast.Attribute) else ""
+                if nm in ("sorted", "reversed", "set", "frozenset", "shuffle", "sort", "reverse", "sample") and not in_logger_call(n):
+                    out.append({"func": fn.name, "line": n.lineno, "what": nm + "()"})
+            elif isinstance(n, (ast.SetComp, ast.DictComp)):
+                out.append({"func": fn.name, "line": n.lineno, "what": type(n).__name__})
+    return out
+
+
+def archive_order_correspondence(ctx):
+    """Tie of Part G: generated ZIP / TAR archives mixing ordinary members (one result), mbox members (several results),
+    directories, hidden / __MACOSX / unsupported / nested-archive members, a member whose extractor raises, and (ZIP) a
+    member with a bad CRC.  The oracles of the model (skip decision, what each member's own extractor yields) are
+    recorded from the real code on the member alone; the Coq model then predicts the sequence read_archive yields."""
+    import re as _re
+    import tarfile
+    from sharepoint2text.parsing.extractors import archive_extractor as ae
+    from sharepoint2text.parsing.router import get_extractor, is_supported_file
+    rng = ctx.rng
+    mark = _re.compile(r"MARK(\d+)")
+
+    def ids_of(results):
+        out = []
+        for r in results:
+            m = mark.search(json.dumps(r.to_json(), default=repr))
+            out.append(int(m.group(1)) if m else 0)
+        return out
+
+    def own_results(basename, data, full):
+        got = []
+        try:
+            for r in get_extractor(basename)(io.BytesIO(data), path=full):
+                got.append(r)
+        except Exception:  # noqa   (_process_archive_entry keeps what was yielded before the exception)
+            pass
+        return ids_of(got)
+
+    def should_skip(filename, basename):
+        f = getattr(ae, "_should_skip_file", None)
+        if f is not None:
+            return bool(f(filename, basename))
+        return basename.startswith(".") or filename.startswith("__MACOSX/") or not is_supported_file(basename) \
+            or get_extractor(basename) is ae.read_archive
+
+    cases, infos = [], []
+    for c in range(ctx.n(40, 300)):
+        kind = ("zip", "tar", "tar.gz")[c % 3]
+        members, model = [], []
+        nxt = 1 + 1000 * c
+        for i in range(rng.randint(1, 12)):
+            k = rng.choice(["txt", "txt", "csv", "md", "json", "html", "mbox", "dir", "hidden", "macosx", "bin", "nested", "broken", "crc"])
+            mid = nxt
+            nxt += 10
+            d = f"d{rng.randint(0, 2)}/"
+            dir_, unread = False, False
+            if k == "dir":
+                name, data, dir_ = f"{d}sub{i}/", b"", True
+            elif k == "hidden":
+                name, data = f"{d}.hidden{i}.txt", f"MARK{mid} hidden".encode()
+            elif k == "macosx":
+                name, data = f"__MACOSX/{d}m{i}.txt", f"MARK{mid} resource fork".encode()
+            elif k == "bin":
+                name, data = f"{d}blob{i}.bin", f"MARK{mid}".encode()
+            elif k == "nested":
+                name, data = f"{d}inner{i}.zip", make_zip([("x.txt", f"MARK{mid} nested".encode())])
+            elif k == "broken":
+                name, data = f"{d}broken{i}.docx", f"MARK{mid} not a zip".encode()
+            elif k == "mbox":
+                name = f"{d}box{i}.mbox"
+                data = "".join(f"From u@example.org Mon Jul  1 08:15:00 2024\nFrom: u@example.org\nSubject: MARK{mid + j} subject\n"
+                               f"Date: Mon, 1 Jul 2024 08:15:00 +0000\n\nbody {j}\n\n" for j in (1, 2)).encode()
+            elif k == "html":
+                name, data = f"{d}p{i}.html", f"<html><body><p>MARK{mid} page</p></body></html>".encode()
+            elif k == "json":
+                name, data = f"{d}j{i}.json", json.dumps({"v": f"MARK{mid}"}).encode()
+            elif k == "crc" and kind == "zip":
+                name, data, unread = f"{d}crc{i}.txt", f"MARK{mid} unreadable member padding padding".encode(), True
+            else:
+                ext = k if k in ("txt", "csv", "md") else "txt"
+                name, data = f"{d}f{i}.{ext}", f"MARK{mid} text, a, b\n".encode()
+            if any(name == n_ for n_, _ in members):
+                continue
+            members.append((name, data))
+            base = os.path.basename(name)
+            skip = False if dir_ else should_skip(name, base)
+            res = [] if (dir_ or skip or unread) else own_results(base, data, f"pack.{kind}!/{name}")
+            model.append((dir_, skip, False, unread, res))
+        if kind == "zip":
+            raw = make_zip([(n_, d_) for n_, d_ in members], corrupt={n_ for (n_, _), m in zip(members, model) if m[3]})
+        else:
+            buf = io.BytesIO()
+            with tarfile.open(fileobj=buf, mode="w" if kind == "tar" else "w:gz") as tf:
+                for n_, d_ in members:
+                    ti = tarfile.TarInfo(n_.rstrip("/"))
+                    if n_.endswith("/"):
+                        ti.type = tarfile.DIRTYPE
+                    ti.size = len(d_)
+                    tf.addfile(ti, io.BytesIO(d_))
+            raw = buf.getvalue()
+        try:
+            got = ids_of(list(get_extractor(f"pack.{kind}")(io.BytesIO(raw), f"pack.{kind}")))
+            exc = None
+        except Exception as e:  # noqa
+            got, exc = [], type(e).__name__
+        ctx.case(("archive-order", kind, tuple(n_ for n_, _ in members), tuple(got)), len(members) >= 2, kind=f"archive-order:{kind}")
+        if exc:
+            ctx.count("archive-order:raises:" + exc)
+            continue
+        ms = coq_list([f"(mkAM {coq_bool(a)} {coq_bool(b)} {coq_bool(c_)} {coq_bool(d_)} {coq_list([str(x) for x in r])}%N)"
+                       for a, b, c_, d_, r in model])
+        cases.append(f"({ms}, {coq_list([str(x) for x in got])}%N)")
+        infos.append((kind, [n_ for n_, _ in members], got))
+        # property oracle on the implementation: results in member order (ids grow with the member index)
+        if got != sorted(got):
+            ctx.finding(f"archive-result-order:{kind}", f"read_archive yields the results of a {kind} archive out of member order: {got} "
+                        f"(members {[n_ for n_, _ in members]})", {"kind": kind, "members": members, "got": got})
+    pre = "From Coq Require Import NArith List.\nFrom S2T Require Import Lib.PyStr C06.Lib C06.Model C06.Corr.\nImport ListNotations.\n"
+    ok, failing, log = coq_eval_shards(ctx, "archive", pre, "corr_archive", cases, shard=200, ty="list (amember N) * list N")
+    ctx.traces += len(cases)
+    ctx.obligation("correspondence:read_archive result sequence==archive_results model (zip, tar, tar.gz)", ok and not failing,
+                   f"{len(failing)} of {len(cases)} disagree, first: {infos[failing[0]] if failing else ''} " + log[:300])
+    ctx.extra["archive_order_cases"] = len(cases)
+
+
 def environment_sweep(ctx, resources, gen_root, generated):
     """common.env_sweep over a sample of inputs: every well-formed generated document (mails, mbox, archives with many
     members, formulas, pictures ...; size files up to 1 MiB) and the small fixtures.  Result = types + digest of the ordered
@@ -2292,6 +2531,19 @@ def stream_oracle(ctx):
                         f"{base64.b64decode(got) == data}, position after={b.tell()}, content kept={b.getvalue() == data}",
                         {"data": data, "position": pos})
         cases.append(f"(mkStream {coq_list([str(x) for x in data])}%N ({pos})%Z, {coq_list([str(x) for x in base64.b64decode(got)])}%N, ({b.tell()})%Z)")
+    # the same property at the sizes where code may switch strategy (oracle only: literals of that size are not for Coq)
+    for n in [x for x in size_boundaries(Pkg(REPO), ctx.tier)[0]]:
+        data = bytes((i * 7 + n) % 251 for i in range(min(n, 4096))) * (n // 4096 + 1)
+        data = data[:n]
+        for pos in (0, n // 2, n, n + 3):
+            b = io.BytesIO(data)
+            b.seek(pos)
+            got = serialization._bytesio_to_base64(b)
+            ctx.case(("b64-big", n, pos), True, kind="stream:_bytesio_to_base64:boundary")
+            if not (base64.b64decode(got) == data and b.tell() == pos and b.getvalue() == data):
+                ctx.finding("stream-discipline:_bytesio_to_base64",
+                            f"_bytesio_to_base64 on {n} bytes at position {pos}: returned whole content={base64.b64decode(got) == data} "
+                            f"({len(base64.b64decode(got))} bytes), position after={b.tell()}", {"size": n, "position": pos})
     pre = "From Coq Require Import ZArith List.\nFrom S2T Require Import Lib.PyStr C06.Lib C06.Model C06.Corr.\nImport ListNotations.\n"
     ok, failing, log = coq_eval_shards(ctx, "stream", pre, "corr_stream", cases, shard=300, ty="stream * list N * Z")
     ctx.obligation("correspondence:_bytesio_to_base64==stream model", ok and not failing, f"{len(failing)} disagreements {log[:400]}")
@@ -2380,12 +2632,15 @@ def run(ctx):
         "C06_input_untouched_serialize",
         "C06_input_untouched_validate_zip", "C06_readonly_ops_keep_buffer", "C06_history_independent",
         "C06_history_dependent_refuted", "C06_content_type_global_db_refuted", "C06_content_type_private_db_independent",
-        "C06_strip_reader_id_independent", "C06_strip_generation_zero_only_refuted", "C06_close_would_lose_buffer"])
+        "C06_strip_reader_id_independent", "C06_strip_generation_zero_only_refuted", "C06_close_would_lose_buffer", "C06_archive_results_compositional",
+        "C06_archive_results_follow_member_order", "C06_archive_member_contribution",
+        "C06_pool_submission_order_schedule_independent", "C06_pool_as_completed_refuted", "C06_sorted_with_key_refuted"])
     ctx.prove("C06/Inst.v", ["Gen/C06Sites.vo", "C06/Corr.vo"], expected=["C06_set_sites_neutral"])
     ctx.prove("C06/InstNd.v", ["Gen/C06Sites.vo"], expected=["C06_nd_sites_no_result_sink"])
     ctx.prove("C06/InstPure.v", ["Gen/C06Sites.vo"], expected=["C06_input_stream_readonly"])
     ctx.prove("C06/InstObs.v", ["Gen/C06Sites.vo"], expected=["C06_observers_do_not_store"])
     ctx.prove("C06/InstGlobal.v", ["Gen/C06Sites.vo"], expected=["C06_no_stdlib_global_writes"])
+    ctx.prove("C06/InstArchive.v", ["Gen/C06Sites.vo"], expected=["C06_archive_members_not_reordered"])
     ctx.prove("C06/InstStr.v", ["Gen/C06Sites.vo"], expected=["C06_stringify_sites_classified",
                                                                 "C06_strip_patterns_are_the_modelled_one"])
 
@@ -2451,6 +2706,17 @@ def run(ctx):
         for seq in [FIXED_SEQ] + [rand_seq() for _ in range(seqs_per_obj)]:
             observe(o, seq, f"in-memory {label} with a placeholder image (data=None)", {"object": label})
             ctx.case(("seq-ph", label, tuple(seq)), True, kind="observer-seq:placeholder")
+
+    # payload sizes at which code may switch strategy (2^16 .. 2^22 and the size-like constants of the package +-1)
+    big_sizes = [n for n in size_boundaries(pkg, ctx.tier)[0] if n >= 65535]
+    ctx.extra["payload_sizes"] = big_sizes
+    for label, o in large_payload_objects(big_sizes):
+        if o is None:
+            ctx.count("large-payload:" + label)
+            continue
+        for seq in (FIXED_SEQ, ["to_json", "images.get_bytes", "to_json", "images.get_bytes", "iterate_images", "to_json"]):
+            observe(o, seq, f"in-memory {label}: image payload of that many bytes", {"object": label})
+            ctx.case(("seq-big", label, tuple(seq)), True, kind="observer-seq:large-payload")
 
     # type-directed instances of every content dataclass: deep snapshot before/after every observer, each twice
     inst, failed, classes = typed_instances(rng, ctx.n(6, 40), exhaustive=(ctx.tier == "thorough"))
@@ -2601,6 +2867,8 @@ def run(ctx):
     mark("mime-workers+comparisons")
     strip_correspondence(ctx, gen_root)
     mark("strip-correspondence")
+    archive_order_correspondence(ctx)
+    mark("archive-order")
     environment_sweep(ctx, resources, gen_root, generated)
     mark("env-sweep")
     td_obj.cleanup()
@@ -2631,8 +2899,18 @@ META = {
                   "and address; a content type looked up in a private table is independent of host database and history (as found: "
                   "refuted). Validated only: cross-process / cross-seed / repeated extraction of all "
                   "fixtures (third-party parsers), input getvalue() unchanged.",
-    "level_note": "Trusted: Coq kernel+VM; the ast inventories and their fail-closed classification; the hand-written heap model "
-                  "(tied by differential runs); third-party libraries are oracles (set order, stream access) or tested only.",
+    "level_note": "Trusted: Coq kernel+VM; the ast inventories and their fail-closed classification (set uses, nondeterminism "
+                  "sinks incl. local time and completion order, input-stream methods and owning wrappers, observer stores with alias "
+                  "analysis, stdlib global writes, stringification sites with the reviewed list REVIEWED_OBJECT_SITES, stripping "
+                  "patterns, archive re-ordering calls); the hand-written models (ODT observers heap, set order, stream, history, "
+                  "content type, stripping pattern, archive result order), each tied by differential runs. Oracles (universally "
+                  "quantified, recorded in the correspondences): set iteration order, library access to the input stream, "
+                  "mimetypes suffix rule, _should_skip_file and each member extractor's own yields (archive order), scheduler "
+                  "completion order. Cannot be modelled (tested only, sampled as listed in the evidence): determinism of third-party "
+                  "parsers across processes / seeds / time zones / cwd / DEBUG logging / threads, str()/repr() of third-party objects "
+                  "other than pypdf IndirectObject, runtime types behind the reviewed stringification sites, third-party monkey "
+                  "patches (C15), 7z archive order (no writer in the harness; C10 covers the 7z member mapping), size constants "
+                  "above the tier cap.",
 }
 
 if __name__ == "__main__":
